@@ -6,7 +6,7 @@
    C06_partial: that no reservation outlives its order when closing itself aborts with an internal error. *)
 From Coq Require Import ZArith QArith List.
 From Basana Require Import Num.DecQ Exchange.Model Exchange.AcctProofs Exchange.StepProofs Exchange.OpProofs
-     Exchange.HoldProofs Exchange.Prims Exchange.Structure Exchange.LedgerProofs.
+     Exchange.HoldProofs Exchange.Prims Exchange.Structure Exchange.LedgerProofs Exchange.AtomicProofs Exchange.CancelProofs.
 Import ListNotations.
 Open Scope Q_scope.
 
@@ -61,6 +61,14 @@ Theorem C06_primitive_transactions_keep_hold_eq_reservations : forall c s s',
   WF s -> holds_inv s -> prim c s s' -> holds_inv s'.
 Proof. exact holds_prim. Qed.
 Print Assumptions C06_primitive_transactions_keep_hold_eq_reservations.
+
+(* in every reachable state each recorded reservation has one non-negative entry per symbol (and, with
+   C06_hold_is_sum_of_reservations, is covered by what the account has on hold) *)
+Theorem C06_reservations_are_non_negative : forall c initial ops k m,
+  cfg_ok c -> ops_ok ops -> NoDup (map fst initial) -> (forall kv, In kv initial -> 0 <= snd kv) ->
+  In (k, m) (s_holds (run c (init_st initial) ops)) -> vnodup m /\ forall kv, In kv m -> 0 <= snd kv.
+Proof. exact reachable_reservations_ok. Qed.
+Print Assumptions C06_reservations_are_non_negative.
 
 Example C06_holds_nonvacuous :
   let c := mkCfg [(1%positive, 2%nat); (2%positive, 2%nat)] [] None NoFee (VolShare 25 0) NoLoans in
